@@ -143,6 +143,50 @@ def run_model(cases, impl):
                 res.setdefault(int(parts[0]), {})[parts[1]] = parts[2]
     return res
 
+def _cps(field):
+    return [int(x) for x in field.strip('[]').split(',') if x.strip()]
+
+SC_STATS = {'compared': 0, 'agree': 0, 'engine_inconsistency': 0, 'unexplained': 0, 'examples': []}
+
+def selfcheck_tie(case, r, m):
+    fl = case["f"].split(',') if case["f"] else []
+    if not ('ns' in fl and 'ne' in fl) or m.get('sc_ref') in (None, '!ERR') or r.get('panic') is not None:
+        return None
+    trace = r.get('trace', [])
+    if any(s_ == 'selfcheck_impossible' for s_, _ in trace):
+        return None        # compile failure measured by the hook (surrogates, size limit): admissibility covers it
+    rec = selfcheck_of(case, trace)
+    SC_STATS['compared'] += 1
+    if m['sc_ref'] == rec:
+        SC_STATS['agree'] += 1
+        return ('agree',)
+    norm = None
+    for s_, t_ in trace:
+        if s_ == 'norm':
+            norm = t_; break
+    if norm is None or m.get('cand1') in (None, '!ERR') or m.get('cand2') in (None, '!ERR'):
+        return None
+    tcs = [_cps(x) for x in norm.split(';')] if norm != '' else [[]]
+    def verdict(cand):
+        rc, out, err = sh([GREXV, 'match'], inp=(json.dumps({'p': _cps(cand), 'hs': tcs}) + '\n').encode())
+        res = [json.loads(l) for l in out.splitlines() if l.startswith('{')]
+        if not res or any(x is None for x in res[0]['meta_count']):
+            return '-', None
+        return ('1' if all(x == 1 for x in res[0]['meta_count']) else '0'), res[0]
+    v1, d1 = verdict(m['cand1']); v2, d2 = verdict(m['cand2'])
+    rc, out, err = sh([DRIVER, '--scdecide'], inp=('%d %s %s\n' % (len(tcs), v1, v2)).encode())
+    explained = out.strip()
+    ex = {'case': {k: case[k] for k in ('tcs', 'f', 'mr', 'ms') if k in case}, 'model_sc_ref': m['sc_ref'], 'implementation': rec,
+          'optimised_engine_verdicts': [v1, v2], 'decision_from_those': explained,
+          'counts': [d1 and {'meta': d1['meta_count'], 'pikevm': d1.get('vm_count')}, d2 and {'meta': d2['meta_count'], 'pikevm': d2.get('vm_count')}]}
+    if explained == rec:
+        SC_STATS['engine_inconsistency'] += 1
+        if len(SC_STATS['examples']) < 5: SC_STATS['examples'].append(ex)
+        return ('inconsistency', ex)
+    SC_STATS['unexplained'] += 1
+    return ('unexplained', 'self-check outcome %s' % rec,
+            'model computes %s; the optimised engine\'s own verdicts %s/%s on the model\'s candidates give %s (Model/SelfCheck.sc_decide)' % (m['sc_ref'], v1, v2, explained))
+
 STAGES = ['norm', 'clusters_g', 'clusters_k', 'clusters_r', 'trie', 'min', 'expr', 'final', 'out']
 LOCAL = ['clusters_g', 'clusters_k', 'clusters_r', 'trie', 'min', 'expr', 'out']
 
@@ -169,6 +213,14 @@ def compare(case, r, m):
     # not taken from the control flow under test
     if m.get('sc_ok') == '0' and not any(s_ == 'selfcheck_impossible' for s_, _ in r.get('trace', [])):
         loc.append(('selfcheck', 'self-check outcome %s' % selfcheck_of(case, r.get('trace', [])), 'not admissible for this configuration (Pipeline.sc_admissible)'))
+    # F inside the model (Model/SelfCheck.v): the self-check outcome COMPUTED by the model from the reference semantics of
+    # the regex crate against the outcome the implementation took. Where they differ the implementation's decision must
+    # be explained by the verdicts of ITS engine (the optimised one, known to deviate on rare patterns) on the model's
+    # candidates, through the model's control flow (sc_decide) — then it is an engine inconsistency, logged; otherwise
+    # the tie is broken at the self-check.
+    sv = selfcheck_tie(case, r, m)
+    if sv is not None and sv[0] == 'unexplained':
+        loc.append(('selfcheck', sv[1], sv[2]))
     for s in LOCAL:
         k = "L:" + s
         if s in impl and k in m and impl[s] != m[k]:
